@@ -26,7 +26,12 @@ a fifth of the graphs carries class, property and instance IRIs with raw non-ASC
 delivered as a Turtle document whose two halves bind the same prefix labels to different namespaces (key prefix-rebound; rdflib's
 Turtle reader gets the same document as a control).
 
+Two more families: a .gz file made of TWO gzip members (key <format>-gz:multi-member; all seven formats) and, in one process, a zip
+archive that is REPLACED at the same path by an archive holding another graph between two Shaper runs (key zip:stale-archive).
+
 Finding keys
+    C08:channel-differs:<format>-gz:multi-member         only the two-member .gz file disagrees (the one-member .gz agrees)
+    C08:channel-differs:zip:stale-archive                second run on a replaced archive disagrees with its own graph
     C08:iri-mangled:<channel>                            the output names IRIs that do not occur in the graph
     C08:channel-differs:<turtle_iter|turtle>:prefix-rebound   only the document with re-bound prefix labels disagrees
     C08:channel-differs:raw-vs-file:<kind|crash>         raw_graph=<text> vs graph_file_input=<same text> (nt, tsv_spo, turtle_iter)
@@ -147,9 +152,25 @@ def render(fmt, T, rebind=False):
     return out.decode("utf-8") if isinstance(out, bytes) else out
 
 
-def _write(path, text, comp):
+def _split_point(data, fmt):
+    """Where a document is cut into two gzip members: after a line end near the middle for the line-oriented / Turtle texts, at
+    an arbitrary byte for RDF/XML and JSON-LD (concatenated members decompress to the whole document anyway)."""
+    mid = len(data) // 2
+    if fmt in ("xml", "json-ld"):
+        return mid
+    k = data.find(b"\n", mid)
+    return k + 1 if k != -1 and k + 1 < len(data) else (data.rfind(b"\n", 0, mid) + 1 or mid)
+
+
+def _write(path, text, comp, members=1, fmt=None):
     data = text.encode("utf-8")
-    if comp == "gz":
+    if comp == "gz" and members == 2:
+        k = _split_point(data, fmt)
+        with gzip.open(path, "wb") as fh:
+            fh.write(data[:k])
+        with gzip.open(path, "ab") as fh:                 # a second gzip member: `cat a.gz b.gz`
+            fh.write(data[k:])
+    elif comp == "gz":
         with gzip.open(path, "wb") as fh:
             fh.write(data)
     elif comp == "xz":
@@ -186,7 +207,7 @@ def deliver(variant, T, tmpdir):
         paths = []
         for i, text in enumerate(texts):
             path = os.path.join(base, "p%d.%s%s" % (i, EXT[fmt], "." + comp if comp else ""))
-            _write(path, text, comp)
+            _write(path, text, comp, variant.get("members", 1), fmt)
             paths.append(path)
         if comp:
             kw["compression_mode"] = comp
@@ -376,6 +397,48 @@ def unexpected_tokens(text, T):
     return U.dedup(bad)
 
 
+def check_zip_replace(case, R):
+    """One process, one path: archive holding graph 1 -> run; the file is REPLACED by an archive holding graph 2 -> run again.
+    Each run must agree with the raw N-Triples reference of its own graph."""
+    cfg, t, fmt = case["cfg"], case["t"], case["fmt"]
+    T1, T2 = U.parse_nt(case["nt"]), U.parse_nt(case["nt2"])
+    tmp = tempfile.mkdtemp(prefix="c08_")
+    try:
+        variant = {"fmt": fmt, "how": case.get("how", "file"), "comp": "zip", "id": 0}
+        if variant["how"] == "files":
+            variant["parts"] = [list(range(len(T1)))]
+        outs, refs = [], []
+        try:
+            for k, T in enumerate((T1, T2)):
+                if variant["how"] == "files":
+                    variant["parts"] = [list(range(len(T)))]
+                refs.append(run_variant(R, {"fmt": "nt", "how": "raw"}, T, cfg, t, tmp))
+                as_file = run_variant(R, {"fmt": "nt", "how": "file", "id": 50 + k}, T, cfg, t, tmp)
+                if difference(as_file, refs[-1], T, cfg, t) is not None:      # the reference is in doubt (reported as raw-vs-file)
+                    R.stats["zip_replace_without_reference"] += 1
+                    return
+                outs.append(run_variant(R, variant, T, cfg, t, tmp))        # same directory, same file name: overwritten
+        except U.Skipped as exc:
+            R.crashes[exc.signature] += 1
+            return
+        if any(sh["cons"] for sh in refs[1]):
+            R.nontrivial.add(U.digest(case["nt"] + case["nt2"], cfg, t))
+        d1 = difference(refs[0], outs[0], T1, cfg, t)
+        d2 = difference(refs[1], outs[1], T2, cfg, t)
+        if d1 is not None and d1[0] != "tie":
+            R.emit("C08:channel-differs:%s:zip:%s" % (fmt, d1[0]), "channel %s, zip archive (first run of a replace-the-archive "
+                   "scenario) yields other shapes than the raw N-Triples string: %s" % (fmt, d1[1]), case)
+        elif d2 is not None and d2[0] != "tie":
+            stale = canon(outs[1]) == canon(outs[0])
+            R.emit("C08:channel-differs:zip:stale-archive",
+                   "channel %s, compression_mode='zip': after the archive at the same path was replaced by one holding another graph, "
+                   "a new Shaper in the same process %s: %s"
+                   % (fmt, "returns the shapes of the FIRST graph again" if stale else "disagrees with the raw N-Triples string of "
+                      "the second graph", d2[1]), case)
+    finally:
+        shutil.rmtree(tmp, ignore_errors=True)
+
+
 def _same_delivery(v, **changes):
     w = dict(v)
     w.update(changes)
@@ -383,6 +446,8 @@ def _same_delivery(v, **changes):
 
 
 def check_case(case, R):
+    if case.get("family") == "zip-replace":
+        return check_zip_replace(case, R)
     nt, cfg, t = case["nt"], case["cfg"], case["t"]
     T = U.parse_nt(nt)
     tmp = tempfile.mkdtemp(prefix="c08_")
@@ -402,7 +467,8 @@ def check_case(case, R):
 
         def plain(fmt, how):
             for j, w in enumerate(case["variants"]):
-                if w["fmt"] == fmt and w["how"] == how and not w.get("comp") and not w.get("parts") and not w.get("rebind"):
+                if w["fmt"] == fmt and w["how"] == how and not w.get("comp") and not w.get("parts") and not w.get("rebind") \
+                        and not w.get("members"):
                     return j
             return None
 
@@ -499,7 +565,7 @@ def check_case(case, R):
             """does the format agree with the reference for (one file | nf files) with the given compression?  None: not run"""
             for j, w in enumerate(case["variants"]):
                 if w["fmt"] == fmt and w["how"] in ("file", "files") and w.get("comp") == comp and n_files(w) == nf \
-                        and (nf == 1) == (w["how"] == "file") and not w.get("rebind"):
+                        and (nf == 1) == (w["how"] == "file") and not w.get("rebind") and not w.get("members"):
                     return status[j] is None or status[j][1] == "tie"       # a tie is no evidence against the format
             return None
 
@@ -511,6 +577,22 @@ def check_case(case, R):
                 continue
             if i in mangled:                                     # already reported as iri-mangled
                 continue
+            if v.get("members"):
+                single = plain_ok(v["fmt"], "gz", 1)
+                if st[0] == "differs" and st[1] == "tie":
+                    R.emit("C08:channel-differs:%s:tie" % v["fmt"], "channel %s, two-member gz file: %s" % (v["fmt"], st[2]),
+                           dict(case, variants=[v]))
+                elif single is not False:
+                    R.emit("C08:channel-differs:%s-gz:multi-member" % v["fmt"],
+                           "channel %s with compression_mode='gz' reading a file made of TWO gzip members (first half written, second "
+                           "half appended) %s; the same text as one member agrees with the reference (%s): %s"
+                           % (v["fmt"], "raises " + st[1] if st[0] == "crashes" else "yields other shapes", ref_name, st[2]),
+                           dict(case, variants=[v]))
+                    continue
+                else:
+                    pass                                   # the one-member gz file fails as well: reported below as usual
+                if st[0] == "differs" and st[1] == "tie":
+                    continue
             if v.get("rebind"):
                 twin = [j for j, w in enumerate(case["variants"]) if not w.get("rebind") and
                         all(w.get(k) == v.get(k) for k in ("fmt", "how", "comp", "parts"))]
@@ -588,6 +670,9 @@ def _variants(rng, n_triples, formats, with_graph=True):
         if k2 != k:
             out.append({"fmt": fmt, "how": "files" if k2 > 1 else "file", "comp": rng.choice((None, "gz", "xz", "zip")),
                         "parts": _partition(rng, n_triples, k2, contiguous=False)})
+    if rng.random() < 0.6:                               # a .gz file made of two gzip members
+        for fmt in formats:
+            out.append({"fmt": fmt, "how": "file", "comp": "gz", "members": 2})
     if with_graph:
         out.append({"fmt": "turtle", "how": "graph"})
     return out
@@ -707,7 +792,12 @@ def gen_cases(tier, seed):
     for gi, (origin, T) in enumerate(fam):
         cases.append({"family": "bnode", "origin": origin, "nt": U.to_nt(T), "cfg": modes[gi % 3], "t": (0, 0.5)[gi % 2],
                       "variants": _variants(rng, len(T), LINE_FORMATS)})
-    return cases
+    n_main = len(cases)
+    for k in range(max(4, n_iri // 6)):                  # the archive at one path is replaced between two runs of one process
+        a, b = cases[(7 * k) % n_iri], cases[(7 * k + 3) % n_iri]
+        cases.append({"family": "zip-replace", "origin": "pair", "nt": a["nt"], "nt2": b["nt"], "cfg": modes[k % 3], "t": 0,
+                      "fmt": FORMATS[k % len(FORMATS)], "how": ("file", "files")[(k // len(FORMATS)) % 2], "variants": []})
+    return cases[:n_main] + cases[n_main:]
 
 
 RULE = ("one evaluation = one fresh Shaper run on one delivery of the graph. Every delivery (format in nt/tsv_spo/turtle_iter/turtle/xml/"
@@ -719,7 +809,8 @@ RULE = ("one evaluation = one fresh Shaper run on one delivery of the graph. Eve
         "rdflib Graph object. For nt/tsv_spo/turtle_iter the raw string is also compared with the file holding the same text (raw-vs-file). "
         "Every output is checked against the abstract graph (labels, rdf:type values, property IRIs: iri-mangled); a fifth of the graphs has "
         "non-ASCII class/property/instance IRIs, another fifth is also delivered as Turtle whose halves re-bind the same prefix labels. "
-        "URLs are impossible offline: skipped. A channel that raises while the reference does not is reported as "
+        "60 %% of the graphs are also delivered as a .gz file of two gzip members per format; extra family: a zip archive replaced at the "
+        "same path between two runs of one process. URLs are impossible offline: skipped. A channel that raises while the reference does not is reported as "
         "C08:channel-crashes and counted in skipped_crashes.")
 
 
@@ -793,7 +884,8 @@ def run(pid=PID, tier="quick", seed=0):
     samples = []
     for c in cases[:: max(1, len(cases) // 3)][:3]:
         s = _strip_case(c)
-        s["variants"] = s["variants"][:3] + ["... %d more" % (len(s["variants"]) - 3)]
+        if len(s["variants"]) > 3:
+            s["variants"] = s["variants"][:3] + ["... %d more" % (len(s["variants"]) - 3)]
         samples.append(U.jsonable(s))
     undecided = []
     if errors:
@@ -810,7 +902,7 @@ def run(pid=PID, tier="quick", seed=0):
                       "them agree with it but not with the original order: tie-breaks follow the triple order); seed %s; wall-clock "
                       "guard %d s per run"
                       % (SIZES[tier][0], 12 if tier == "thorough" else 8, len(cases[0]["variants"]), SIZES[tier][1],
-                         len(cases[-1]["variants"]), stats["differs_from_original_order_only"], seed, U.TIMEOUT),
+                         len([c for c in cases if c["family"] == "bnode"][-1]["variants"]), stats["differs_from_original_order_only"], seed, U.TIMEOUT),
             "samples": samples, "skipped_crashes": dict(crashes), "findings": out_findings, "undecided": undecided,
             "distinct_finding_keys": len(by_key), "all_finding_keys": dict((k, counts[k]) for k in sorted(by_key)),
             "wall_s": round(time.time() - t0, 2)}
@@ -928,7 +1020,36 @@ def _mutants():
         m3.BigTtlTriplesYielder._parse_elem = _parse_elem
         return lambda: setattr(m3.BigTtlTriplesYielder, "_parse_elem", old)
 
-    return [("the line readers decode IRIs with unicode_escape (raw non-ASCII becomes mojibake)", "C08:iri-mangled:", iri_unicode_escape),
+    def zip_archive_cache():
+        import shexer.utils.factories.triple_yielders_factory as tf
+        old = tf._get_base_zip_archive_if_needed
+        cache = {}
+
+        def _get_base_zip_archive_if_needed(source_file, list_of_source_files, compression_mode):
+            if compression_mode != "zip":
+                return None
+            paths = [source_file] if source_file is not None else list(list_of_source_files)
+            for a_path in paths:
+                if a_path not in cache:                   # opened once per path, never invalidated
+                    cache[a_path] = zipfile.ZipFile(a_path, "r")
+            return [cache[a_path] for a_path in paths]
+        tf._get_base_zip_archive_if_needed = _get_base_zip_archive_if_needed
+        return lambda: setattr(tf, "_get_base_zip_archive_if_needed", old)
+
+    def gz_first_member_only():
+        import zlib
+        import shexer.io.graph.yielder.rdflib_triple_yielder as rt
+        old = rt.get_content_gz_file
+
+        def get_content_gz_file(gz_path):
+            with open(gz_path, "rb") as in_stream:
+                return zlib.decompress(in_stream.read(), 16 + zlib.MAX_WBITS)      # stops after the first gzip member
+        rt.get_content_gz_file = get_content_gz_file
+        return lambda: setattr(rt, "get_content_gz_file", old)
+
+    return [("opened zip archives are cached per path and never invalidated", "C08:channel-differs:zip:stale-archive", zip_archive_cache),
+            ("get_content_gz_file decompresses the first gzip member only", "-gz:multi-member", gz_first_member_only),
+            ("the line readers decode IRIs with unicode_escape (raw non-ASCII becomes mojibake)", "C08:iri-mangled:", iri_unicode_escape),
             ("turtle_iter memoises prefixed names across a second @prefix for the same label", "C08:channel-differs:turtle_iter:prefix-rebound",
              prefixed_name_memo),
             ("RawStringLineReader.read_lines uses splitlines()", "C08:channel-differs:raw-vs-file:", raw_reader_splitlines),
